@@ -759,4 +759,4 @@ Definition wf_sub (m : subm) : bool :=
   | Blob n p => in_u16 n && (negb p || (20 <=? n))
   end.
 Definition wf_dgram (d : dgram) : bool :=
-  (0 <=? d_src d) && (d_src d <=? 255) && forallb wf_sub (d_subs d).
+  (0 <=? d_src d) && (d_src d <=? 255) && forallb wf_sub (d_subs d) && (0 <=? dg_bytes d).
